@@ -266,6 +266,22 @@ def run(tier: str, seed: int):
         raw_units += [(names, maxlen, [r0]) for r0 in alph]
     for r in shard_map(check_raw_digraphs, raw_units):
         acc.merge(r)
+    # one block of every registered type, with payload, hand-built (types such as the base SyntheticBranch never come out of the
+    # restructuring passes but are legal inputs of the writer and the reader)
+    from ..families import one_of_each_type
+    for kind in "dy":
+        scfg, types = one_of_each_type()
+        seen_t = set()
+
+        def report_t(clause, detail, site=""):
+            if clause in seen_t:
+                return
+            seen_t.add(clause)
+            acc.viol(PROP, f"{PROP}/{clause}", f"graph with one block of every registered type ({kind}): {detail}", ("one-of-each", kind),
+                     site=site or "one-of-each", shape="one-of-each-type", case={"kind": "one-of-each", "rt": kind})
+        round_trip(scfg, kind, report_t)
+        acc.states += 1
+        acc.counters["one_of_each_type_round_trips"] += 1
     progs = list(skeleton_sources(1 if tier == "quick" else 2, "marked"))
     for r in shard_map(check_byteflow, [progs[i:i + 100] for i in range(0, len(progs), 100)]):
         acc.merge(r)
@@ -287,6 +303,11 @@ def replay(case) -> Acc:
     if case.get("kind") == "function":
         r = check_byteflow([(case["label"], case["source"])])
         return r
+    if case.get("kind") == "one-of-each":
+        from ..families import one_of_each_type
+        scfg, _ = one_of_each_type()
+        round_trip(scfg, case["rt"], lambda clause, detail, site="": acc.viol(PROP, f"{PROP}/{clause}", detail, ("one-of-each",)))
+        return acc
     if case.get("kind") == "raw":
         G = {k: tuple(v) for k, v in case["graph"].items()}
         names = tuple(G)
